@@ -187,6 +187,17 @@ class HdlcModel:
         missing = [k for k in ("frame", "pending", "buffer", "stuffing", "abort", "buffer_cls") if getattr(r, k) is None]
         if missing:
             raise Undecided(f"cannot bind reader roles {missing} from the public API")
+        # initial state: a new reader is hunting (no frame in progress, no pending escape): octets that arrive before the first flag belong to no frame
+        for p in ips:
+            fv = strip_epoch(p.store.get(("f", SELF, r.frame), ("c", None)))
+            pv = strip_epoch(p.store.get(("f", SELF, r.pending), ("c", False)))
+            if fv[0] == "new" or (fv[0] == "c" and fv[1] is not None):
+                from sa.report import ModelViolation
+                raise ModelViolation("hdlc.HdlcFrameReader.__init__", "initial-state", "a new reader starts with a frame in progress instead of hunting for a flag: octets received before the first flag "
+                                     "are collected and can be returned as a frame that no flag opened", self.src.file("hdlc"), init.node.lineno, witness=f"self.{r.frame} = {show_sv(fv)[:60]}")
+            if pv == ("c", True):
+                from sa.report import ModelViolation
+                raise ModelViolation("hdlc.HdlcFrameReader.__init__", "initial-state", "a new reader starts with a pending escape", self.src.file("hdlc"), init.node.lineno)
         return r
 
     # ------------------------------------------------------------------ paths
